@@ -274,6 +274,13 @@ Definition parse_ip (s : str) : outcome val :=
       end
   end.
 
+Definition netip_name : str := s2r "net.IP"%string.
+(* net.IP = `type IP []byte` *)
+Definition netip (e : ty) (name : str) : bool :=
+  match e with TBasic (KUint 8) _ => str_eqb name netip_name | _ => false end.
+Definition is_netip (t : ty) : bool :=
+  match t with TSlice e n => netip e n | _ => false end.
+
 (* ---- parse.StringSlice / parse.StringSet / splitMap on the simple alphabet:
    tokens over [a-z0-9], separated by ',' (and ':' in maps).  Quoting,
    whitespace and every other rune are outside this stand-in (Err 97). ---- *)
